@@ -38,11 +38,12 @@ Context(o, caps) ==
 
 Verdict(r) ==
   IF ~r.accepted
-  THEN [i |-> r.i, accepted |-> FALSE, failed |-> {}, kinds |-> {}, ctx |-> Context(r.offer, r.cfg.caps)]
+  THEN [i |-> r.i, accepted |-> FALSE, failed |-> {}, ext |-> {}, kinds |-> {}, ctx |-> Context(r.offer, r.cfg.caps)]
   ELSE LET o == r.offer
            a == r.answer
            f == Failed(o, r.cfg.mode, a) \cup (IF r.roundtrip_ok THEN {} ELSE {"RoundTrip"})
        IN [i |-> r.i, accepted |-> TRUE, failed |-> f, ctx |-> Context(o, r.cfg.caps),
+           ext |-> (IF FmtSubset(o, a) THEN {} ELSE {"FmtSubset"}),
            kinds |-> UNION { { <<rule, o.secs[i].kind>> : i \in BadSecs(rule, o, r.cfg.mode, a) } :
                                rule \in f \cap SectionRules }]
 
